@@ -243,7 +243,7 @@ def apply_unified_diff(sources: dict[str, str], diff: str) -> dict[str, str] | N
             flush()
             cur = None
         elif line.startswith("+++ "):
-            path = line[4:].strip()
+            path = line[4:].split("\t")[0].strip()
             cur = path[2:] if path.startswith("b/") else path
         elif line.startswith("--- ") or line.startswith("index ") or line.startswith("new file") or line.startswith("deleted file"):
             continue
